@@ -67,6 +67,8 @@ pub struct Profile {
     pub biased_fault_pm: u64,
     pub slow_round_pm: u64,
     pub fsync_delay_ms: (u64, u64),
+    /// share of nodes whose disk is very slow (fsync delay x 25: whole elections pass meanwhile)
+    pub slow_disk_pm: u64,
     pub stabilise_pm: u64,
     pub transfer_in_suffix_pm: u64,
     pub lockstep: bool,
@@ -125,6 +127,7 @@ impl Profile {
             biased_fault_pm: 400,
             slow_round_pm: 100,
             fsync_delay_ms: (1, 60),
+            slow_disk_pm: 60,
             stabilise_pm: 0,
             transfer_in_suffix_pm: 0,
             lockstep: false,
@@ -162,6 +165,7 @@ struct NodeDrv {
     stalled: bool,
     eager_compact: bool,
     not_member_since: Option<u64>,
+    slow_disk: bool,
 }
 
 pub struct RunOutcome {
@@ -293,6 +297,7 @@ impl<'a> Driver<'a> {
                     stalled: false,
                     eager_compact: rng.pm(150),
                     not_member_since: None,
+                    slow_disk: rng.pm(p.slow_disk_pm),
                 },
             );
         }
@@ -459,6 +464,7 @@ impl<'a> Driver<'a> {
         if nd.stalled {
             return;
         }
+        let slow_disk = nd.slow_disk;
         let mut pushes: Vec<(u64, Ev)> = Vec::new();
         if has_ready && !nd.round_pending {
             nd.round_pending = true;
@@ -467,7 +473,10 @@ impl<'a> Driver<'a> {
         }
         if (wq || outstanding) && !nd.fsync_pending {
             nd.fsync_pending = true;
-            let d = self.rng.range(self.p.fsync_delay_ms.0, self.p.fsync_delay_ms.1) * MS;
+            let mut d = self.rng.range(self.p.fsync_delay_ms.0, self.p.fsync_delay_ms.1) * MS;
+            if slow_disk {
+                d *= 25;
+            }
             pushes.push((d, Ev::Fsync(n)));
         }
         if applyq && !nd.apply_pending {
